@@ -109,7 +109,23 @@ def mixin_rules(repo, res):
                                 f'a later call (e.g. include_localbkg=False) then still sees the change', {}))
     f = cls.lookup('make_model_image')
     # the table is copied before the local_bkg column is added, on every path that adds it
-    expect_stmt(res, 'SPEC', f, 'model_params = ' + nf_text('model_params.copy()'), 'parameter table copied before local_bkg is added')
+    # the table that receives the local_bkg column is a fresh copy (the statement before the column store, in the same block)
+    ok = False
+    for par in ast.walk(f.node):
+        for fld in ('body', 'orelse'):
+            blk = getattr(par, fld, None)
+            if not isinstance(blk, list):
+                continue
+            for i_, st_ in enumerate(blk):
+                if isinstance(st_, ast.Assign) and unparse(st_.targets[0], 0) == "model_params['local_bkg']":
+                    prev = [p_ for p_ in blk[:i_] if isinstance(p_, ast.Assign) and unparse(p_.targets[0], 0) == 'model_params']
+                    ok = bool(prev) and isinstance(prev[-1].value, ast.Call) and isinstance(prev[-1].value.func, ast.Attribute) \
+                        and prev[-1].value.func.attr == 'copy' and not prev[-1].value.args
+    res.oblige('SPEC', 'ModelImageMixin.make_model_image: the parameter table is copied before the local_bkg column is added', ok, nontrivial=True)
+    if not ok:
+        res.add(Finding('SPEC', f.fullname, 'copy before local_bkg', f.loc,
+                        'ModelImageMixin.make_model_image: the table that receives the local_bkg column must be a fresh `.copy()` made in the '
+                        'same branch (otherwise the stored fit parameters gain a column)', {}))
     expect_stmt(res, 'SPEC', f, nf_text("model_params['local_bkg']") + ' = local_bkgs', 'local_bkg column set from the stored local backgrounds')
     g = cls.lookup('make_residual_image')
     calls = SP.find_calls(g.node, 'np.subtract')
